@@ -110,7 +110,11 @@ def run(repo: Repo, rep: Report, tier: str) -> None:
     except Raised as r_:
         rep.fail("population", "ae.ApplicationEntity.active_associations", f"raises {r_.kind}", "the population could not be computed", mod=ae, node=aa)
     except Unsupported as exc_:
-        rep.defer(f"ae.ApplicationEntity.active_associations could not be evaluated ({exc_})")
+        if "stand-in ApplicationEntity has no attribute" in str(exc_):
+            attr_ = str(exc_).rsplit(" ", 1)[-1]
+            rep.fail("population", "ae.ApplicationEntity.active_associations", f"reads self.{attr_}", f"the population is taken from bookkeeping the AE keeps itself (self.{attr_}) instead of the live threads (threading.enumerate()): an association that is registered late, dropped early (not yet / no longer is_alive()) or never registered is not counted although its thread and connection exist, so the AE can exceed maximum_associations", mod=ae, node=aa)
+        else:
+            rep.defer(f"ae.ApplicationEntity.active_associations could not be evaluated ({exc_})")
     assoc = repo.mod("association")
     ia = repo.func("association", "Association.is_acceptor")
     rep.check(any(norm(r.value) == "self.mode == MODE_ACCEPTOR" for r in walk_no_nested(ia) if isinstance(r, ast.Return)), "population", "association.Association.is_acceptor", "mode == MODE_ACCEPTOR", "is_acceptor must identify acceptor associations", mod=assoc, node=ia)
